@@ -59,8 +59,10 @@ def resumeNext (s : St) (stmt : Option (Nat × Nat)) : Option St :=
   | some (_, e) => some { s with active := false, pc := e }
   | none => none                    -- Trapped(CANNOT_RESUME) is raised
 
-/-- `_trap(code)` -/
-def trapDispatch (s : St) (code : Nat) (stmt : Option (Nat × Nat)) : Out :=
+/-- `_trap(code)`.  `unwind` = the address inside the module-level statement whose CALL (directly or through further calls)
+    led into the procedure that is executing, `none` at module level: entering a module-level handler leaves the procedures
+    (as repaired: the handler ran on the procedure's frame), and the error then counts as one of that statement -/
+def trapDispatch (s : St) (code : Nat) (stmt : Option (Nat × Nat)) (unwind : Option Nat := none) : Out :=
   let s := { s with lastTrap := some code }
   if !s.active && s.target != .off then
     match s.target with
@@ -68,7 +70,7 @@ def trapDispatch (s : St) (code : Nat) (stmt : Option (Nat × Nat)) : Out :=
       match resumeNext s stmt with
       | some s' => .st s'
       | none => .st { s with lastTrap := some CANNOT_RESUME, trappedAddr := s.prevPc, halted := true, reason := .trap }   -- reported as fatal (as repaired)
-    | .addr a => .st { s with pc := a, active := true }
+    | .addr a => .st { s with pc := a, active := true, trappedAddr := unwind.getD s.trappedAddr }
     | .off => .st s
   else .st { s with halted := true, reason := .trap }
 
@@ -79,15 +81,15 @@ def endCheck (codeLen : Nat) (o : Out) : Out :=
 
 /-- one tick.  `stmt` = find_stmt(address of this instruction) if it traps, or find_stmt(trapped_addr) for
     errres / errresn (the caller supplies the one that applies) -/
-def tick (codeLen : Nat) (s : St) (ik : IK) (stmt : Option (Nat × Nat)) : Out :=
+def tick (codeLen : Nat) (s : St) (ik : IK) (stmt : Option (Nat × Nat)) (unwind : Option Nat := none) : Out :=
   if s.interrupt then
-    trapDispatch { s with interrupt := false } KEYBOARD_INTERRUPT stmt      -- returns before fetching anything
+    trapDispatch { s with interrupt := false } KEYBOARD_INTERRUPT stmt unwind      -- returns before fetching anything
   else
     let s := { s with prevPc := s.pc }
     match ik with
     | .invalidOp =>
       -- get_instruction_at calls _trap directly; pc += 1; no end-of-code check (tick returns)
-      match trapDispatch s INVALID_OP_CODE stmt with
+      match trapDispatch s INVALID_OP_CODE stmt unwind with
       | .st s' => .st { s' with pc := s'.pc + 1 }
       | o => o
     | .plain next => endCheck codeLen (.st { s with pc := next })
@@ -95,23 +97,23 @@ def tick (codeLen : Nat) (s : St) (ik : IK) (stmt : Option (Nat × Nat)) : Out :
     | .host cls size => .host cls { s with pc := s.pc + size }
     | .traps code size =>
       -- pc was advanced past the instruction before it trapped; trapped_addr = prev_pc
-      endCheck codeLen (trapDispatch { s with pc := s.pc + size, trappedAddr := s.pc } code stmt)
+      endCheck codeLen (trapDispatch { s with pc := s.pc + size, trappedAddr := s.pc } code stmt unwind)
     | .errhand t size =>
       let s1 := { s with pc := s.pc + size }
       if t = 0 && s.active then
         -- re-raises the last error
-        endCheck codeLen (trapDispatch { s1 with trappedAddr := s.pc } (s.lastTrap.getD 0) stmt)
+        endCheck codeLen (trapDispatch { s1 with trappedAddr := s.pc } (s.lastTrap.getD 0) stmt unwind)
       else if s.active then
-        endCheck codeLen (trapDispatch { s1 with trappedAddr := s.pc } ERRHAND_IN_HANDLER stmt)
+        endCheck codeLen (trapDispatch { s1 with trappedAddr := s.pc } ERRHAND_IN_HANDLER stmt unwind)
       else
         endCheck codeLen (.st { s1 with target := if t = 0 then .off else if t = 1 then .next else .addr t })
     | .errres size =>
       match stmt with
       | some (st0, _) => endCheck codeLen (.st { s with active := false, pc := st0 })
-      | none => endCheck codeLen (trapDispatch { s with pc := s.pc + size, trappedAddr := s.pc } CANNOT_RESUME none)
+      | none => endCheck codeLen (trapDispatch { s with pc := s.pc + size, trappedAddr := s.pc } CANNOT_RESUME none unwind)
     | .errresn size =>
       match stmt with
       | some (_, e) => endCheck codeLen (.st { s with active := false, pc := e })
-      | none => endCheck codeLen (trapDispatch { s with pc := s.pc + size, trappedAddr := s.pc } CANNOT_RESUME none)
+      | none => endCheck codeLen (trapDispatch { s with pc := s.pc + size, trappedAddr := s.pc } CANNOT_RESUME none unwind)
 
 end Qbee.Tick
